@@ -705,7 +705,10 @@ func MergeRows(_ interface{},
 	}
 
 	if res.Deleted {
-		return &res
+		// Values written after the delete stay (hidden while the row is
+		// deleted): a re-INSERT older than them may still be merged, and the
+		// outcome must not depend on the order of the merges.
+		resetValuesBefore = outTime.Add(res.DeleteUpdateOffset.AsDuration())
 	}
 
 	allKeys := make(map[string]struct{})
